@@ -304,9 +304,10 @@ def run(ch: Choices, opts: Dict[str, Any]) -> Dict[str, Any]:
     if crosses:
         bump(probes, "value-crosses-precompile")
     h = hashlib.blake2b(repr((segments, script, nv, budget)).encode(), digest_size=10).hexdigest()
+    dg = hashlib.blake2b(repr((A.qm.log, B.qm.log, A.visible(), A.bookkeeping())).encode(), digest_size=10).hexdigest()
     nontrivial = any(s["precompile"] and s["values"] for s in segments) and crosses
     return {
-        "digest": h, "fingerprint": h, "nontrivial": bool(nontrivial), "events": sum(len(s["stmts"]) for s in segments),
+        "digest": dg, "fingerprint": h, "nontrivial": bool(nontrivial), "events": sum(len(s["stmts"]) for s in segments),
         "sim_ns": 0, "faults": faults, "probes": probes, "calm": calm,
         "sample": {"nv": nv, "budget": budget, "segments": [{"precompile": s["precompile"], "values": s["values"],
                                                              "stmts": s["stmts"][:8]} for s in segments[:3]]},
